@@ -1,5 +1,5 @@
 (* Model runner: reads one command per line, evaluates the extracted Gallina model, prints one result line. *)
-open Model
+
 
 let rec pos_of_int (n : int) : positive =
   if n = 1 then XH else if n land 1 = 0 then XO (pos_of_int (n lsr 1)) else XI (pos_of_int (n lsr 1))
@@ -56,45 +56,7 @@ let hex (l : n list) : string =
 
 let words s = List.filter (fun w -> w <> "") (String.split_on_char ' ' s)
 
-let cfg_of = function "pinned" -> cfg_pinned | _ -> cfg_current
-let lerr_name = function EInvalidFile -> "invalid_file" | EUnsupportedVersion -> "unsupported_version"
-  | ECorruptFile -> "corrupt_file" | ENoMemory -> "no_memory"
-let lbad_name = function BadAssert -> "assert" | BadOOB -> "oob" | BadAddrDep -> "addrdep"
 
-let handle (line : string) : string =
-  match words line with
-  | ["load"; c; h] ->
-      let cfg = cfg_of c in
-      (match rules_load cfg (unhex h) with
-       | LOk a -> Printf.sprintf "ok wf=%b resave=%s" (wf_arena a) (hex (save cfg a))
-       | LErr e -> "err " ^ lerr_name e
-       | LBad b -> "bad " ^ lbad_name b)
-  | ["fold"; op; a; b] ->
-      let a = z_of_string a and b = z_of_string b in
-      let (f, v, sp) = match op with
-        | "add" -> (fold_add a b, vm_of_fold_add a b, spec_add a b)
-        | "sub" -> (fold_sub a b, vm_of_fold_sub a b, spec_sub a b)
-        | "mul" -> (fold_mul a b, vm_of_fold_mul a b, spec_mul a b)
-        | "div" -> (fold_div a b, vm_of_fold_div a b, spec_div a b)
-        | "mod" -> (fold_mod a b, vm_of_fold_mod a b, spec_mod a b)
-        | "bxor" -> (fold_bxor a b, vm_of_fold_bxor a b, spec_bxor a b)
-        | "band" -> (fold_band a b, vm_of_fold_band a b, spec_band a b)
-        | "bor" -> (fold_bor a b, vm_of_fold_bor a b, spec_bor a b)
-        | "shl" -> (fold_shl a b, vm_of_fold_shl a b, spec_shl a b)
-        | "shr" -> (fold_shr a b, vm_of_fold_shr a b, spec_shr a b)
-        | _ -> failwith "op" in
-      let fs = match f with Folded x -> "Folded:" ^ string_of_z x | Reject c -> "Reject:" ^ string_of_z c
-                          | FTrap -> "FTrap" | FNoValue -> "FNoValue" in
-      let undef = z_of_string "-1483400188077313" in
-      let vs = match v with VVal x -> if x = undef then "undef" else string_of_z x | VTrap -> "trap" | VNoValue -> "novalue" in
-      let ss = match sp with Some x -> string_of_z x | None -> "undef" in
-      Printf.sprintf "fold=%s vm=%s spec=%s" fs vs ss
-  | _ -> "unknown " ^ line
-
-let () =
-  try
-    while true do
-      let line = input_line stdin in
-      (try print_endline (handle line) with e -> print_endline ("exception " ^ Printexc.to_string e))
-    done
-  with End_of_file -> ()
+let words s = List.filter (fun w -> w <> "") (String.split_on_char ' ' s)
+let handlers : (string, string list -> string) Hashtbl.t = Hashtbl.create 16
+let register (name : string) (f : string list -> string) = Hashtbl.replace handlers name f
